@@ -521,7 +521,11 @@ def icon_invariant(rep, rule, fs, res, fnf='lltdResponder/lltdBlock.c'):
             z = st.canon(mem.load_scalar(st, so, C(fs.soff('small_icon_size')), fs.ix.parse_type('unsigned long')))
             n += 1
             if p[0] == 'ptr':
-                rep.ok(rule)
+                # what the record caches must be a block it owns: the Reset (and the next refresh) hands it to the port's free
+                o_ = st.objs.get(p[1])
+                owned = o_ is not None and o_.heap and o_.live and st.canon(p[2]) == ZERO
+                rep.check(owned, rule, 'icon-owned|%s' % region, 'a path of cell %s leaves the icon cache pointing to %s, which is not a live heap block owned by the record '
+                          '(static storage, an interior pointer, a released block): clearing the cache frees it' % (region, short(p)), function='parseFrame', file=fnf)
                 continue
             if p == ZERO:
                 ok = st.dom(z).hi == 0
